@@ -66,11 +66,11 @@ async fn observe_all(w: &mut World, id: &str, step: usize, out: &mut impl Write)
     }
 }
 
-type Att = (sos_core::VaultId, sos_core::SecretId, sos_core::ExternalFileName, Vec<u8>);
+pub type Att = (sos_core::VaultId, sos_core::SecretId, sos_core::ExternalFileName, Vec<u8>);
 
 /// a file secret with two further external files attached to it (three blobs under one secret id) on
 /// the default folder; returns every external file the account's directory lists, with its plaintext
-async fn add_attachments(w: &World, a: &mut sos_account::LocalAccount) -> Vec<Att> {
+pub async fn add_attachments(w: &World, a: &mut sos_account::LocalAccount) -> Vec<Att> {
     use sos_client_storage::AccessOptions;
     use sos_vault::secret::{Secret, SecretMeta, SecretRow};
     let mut out = vec![];
@@ -90,8 +90,8 @@ async fn add_attachments(w: &World, a: &mut sos_account::LocalAccount) -> Vec<At
             let _ = a.update_secret(&r.id, row.meta().clone(), Some(row.secret().clone()), AccessOptions { folder: Some(folder), ..Default::default() }).await;
         }
     }
-    let paths = Paths::new_client(&w.devs[0].dir).with_account_id(&w.account_id);
-    if let Ok(files) = sos_external_files::list_external_files(&paths).await {
+    let target = a.backend_target().await.with_account_id(&w.account_id);
+    if let Ok(files) = target.list_files().await {
         for f in files {
             if let Ok(content) = a.download_file(f.vault_id(), f.secret_id(), f.file_name()).await {
                 out.push((*f.vault_id(), *f.secret_id(), *f.file_name(), content));
